@@ -12,6 +12,7 @@ class SimSocket:
     def __init__(self, peer=("10.0.0.1", 6053), family=2, broken: bool = False) -> None:
         self.broken = broken  # the peer reset the connection right after it was established
         self.closed = False
+        self.peer_reset = False  # recv() has failed: the connection is dead as far as the OS is concerned
         self.close_calls = 0
         self.peer = peer
         self.family = family
@@ -37,6 +38,13 @@ class SimSocket:
     def close(self) -> None:
         self.closed = True
         self.close_calls += 1
+
+    def shutdown(self, how) -> None:
+        """As the OS does it: EBADF on a closed descriptor, ENOTCONN once the peer has reset the connection."""
+        if self.closed:
+            raise OSError(9, "Bad file descriptor")
+        if self.peer_reset or self.broken:
+            raise OSError(107, "Transport endpoint is not connected")
 
 
 class SimTransport(asyncio.Transport):
@@ -197,5 +205,6 @@ class SimTransport(asyncio.Transport):
         """recv() raised (e.g. ConnectionResetError)."""
         if not self.can_receive():
             return False
+        self.sock.peer_reset = True
         self._fatal_error(exc, "Fatal read error on socket transport")
         return True
